@@ -175,6 +175,34 @@ def d9(rep):
     rep.floor("#line directives written by emit.c", n, 1)
 
 
+def d10(rep):
+    """The properties given with -D are state of the invocation; each source file of a command line starts from them and may
+    change them for itself (#assert, #unassert -- aldor.as itself unasserts one).  includeFile therefore hands the includer a
+    *copy* of the invocation's list.  Handing it the list itself `because #assert only pushes in front` lets the destructive
+    #unassert of one file edit what the next file starts from: the second file's `#if` takes another branch when it is compiled
+    after a file that unasserted the property than when it is compiled alone.  In includeFile the per-file list is assigned
+    the result of a copying call, never the invocation's list itself.  (includeLine, the interactive reader, shares on
+    purpose: a session is one continuing file.)"""
+    f = common.extract("include.c", trees=["includeFile"])
+    fn = f.func("includeFile")
+    ws = [x for x in walk(fn["body"]) if x["k"] == "BinaryOperator" and x["op"] == "=" and (strip(x["c"][0]) or {}).get("n") == "localAssertList"]
+    if not ws:
+        raise AnalysisBroken("includeFile no longer sets localAssertList")
+    for x in ws:
+        r = strip(x["c"][1])
+        key = "per-file-state-starts-from-a-copy:localAssertList"
+        copies = r is not None and r["k"] == "CallExpr" and any(y["k"] == "DeclRefExpr" and y["n"] == "globalAssertList" for a in r["c"][1:] for y in walk(a))
+        if copies:
+            rep.ok("D10", key)
+        elif r is not None and any(y["k"] == "DeclRefExpr" and y["n"] == "globalAssertList" for y in walk(r)):
+            rep.violation("D10", key, "include.c:%d (includeFile)" % x["l"],
+                          "the per-file list of asserted properties is the invocation's list itself, not a copy: `#unassert P` in "
+                          "one source file (or in a file it includes) removes the cell from the list every later file of the same "
+                          "command line starts from, so `aldor -DP a.as b.as` compiles b.as differently from `aldor -DP b.as`")
+        else:
+            rep.ok("D10", key, nontrivial=False)
+
+
 def d5(rep):
     """The object-file header is built in memory by libNewHeader and written field by field by libPutHeader.  The store the Lib
     lives in is not cleared, so every field the writer emits, for every index it emits, must have been assigned by the
@@ -591,6 +619,7 @@ def run(tier, only=None):
     rep.floor("monotone never-reset integer counters examined", nc, 15)
     d5(rep)
     d9(rep)
+    d10(rep)
     d6(rep, dig)
     d7(rep)
     d8(rep)
